@@ -66,8 +66,8 @@ fn hub_sync(sc: &Scratch, local: &Path, hub: &Path, ssh: bool) -> RunRes {
         let _ = std::fs::create_dir_all(sc.path("rhome"));
         c.env("PATH", format!("{}:{}", crate::e3::STANDIN_DIR, std::env::var("PATH").unwrap_or_default())).env("VSTANDIN_HOME", sc.path("rhome")).env("VSTANDIN_BIN", cli_bin().parent().map(|p| p.to_path_buf()).unwrap_or_default());
     }
-    let o = c.output().unwrap_or_else(|e| machinery_error(format!("spawn hub-sync: {e}")));
-    RunRes { code: o.status.code(), stdout: String::from_utf8_lossy(&o.stdout).into_owned(), stderr: String::from_utf8_lossy(&o.stderr).into_owned() }
+    let (code, out, err) = output_with_timeout(&mut c, 60);
+    RunRes { code, stdout: String::from_utf8_lossy(&out).into_owned(), stderr: String::from_utf8_lossy(&err).into_owned() }
 }
 
 fn sent_count(stdout: &str) -> Option<(u64, u64, u64)> {
